@@ -162,11 +162,30 @@ def check_trajectories(ck, cases, pid, rtol=2e-7, describe=None, shard=25, what=
             c["cinit"] = (hsh % 3 == 0)
     ires = lib.run_impl("solve_impl.py", {"cases": [gen.floatable(c) for c in cases]}, timeout=3000)["results"]
     terms, meta = [], []
+    nonfinite_degenerate, nonfinite_other = set(), set()
+
+    def _finite(o):
+        if isinstance(o, dict):
+            return all(_finite(v) for v in o.values())
+        if isinstance(o, (list, tuple)):
+            return all(_finite(v) for v in o)
+        if isinstance(o, float):
+            return math.isfinite(o)
+        return True
+
     for i, c in enumerate(cases):
         r = ires[i]
         if "error" in r:
             continue
         sts = r["states"]
+        if not _finite(sts) or not _finite(r.get("out", [])):
+            # NaN/inf states cannot be converted to rationals.  Dynamic calibration with an exactly-zero local scale produces them
+            # (gain 0/0, finding F21): excluded like the other degenerate-scale cases; anything else is reported below.
+            if c["calib"].startswith("dyn") and any((x == 0.0) or (x != x) for st in sts[1:] for x in st["out"]):
+                nonfinite_degenerate.add(i)
+            else:
+                nonfinite_other.add(i)
+            continue
         if "step" in what:
             terms.append(lambda c=c: gen.coq_init(c))
             meta.append((i, "init", None))
@@ -185,12 +204,17 @@ def check_trajectories(ck, cases, pid, rtol=2e-7, describe=None, shard=25, what=
         ck.notes.append(f"model evaluation failed: {str(e)[:800]}")
         ck.report(f"{pid}.model-eval", "model evaluation failed (Coq)", {"notes": ck.notes, "broken": "Run/GaussRun.v step_run/finalize_run"}, nofail=True)
         return 0.0
-    worst, skipped, degenerate = 0.0, 0, 0
-    bad = set()
+    worst, skipped, degenerate = 0.0, 0, len(nonfinite_degenerate)
+    bad = set(nonfinite_degenerate) | set(nonfinite_other)
+    for i in sorted(nonfinite_other):
+        c = cases[i]
+        ck.report(f"{pid}.{c['kind']}.{c['strat']}.{c['calib']}.non-finite-state",
+                  f"{c['kind']}/{c['strat']}/{c['lin']}/{c['calib']}: the solver produced non-finite states on a well-posed fixed-grid problem",
+                  {"case": gen.jsonable(c)})
     for i, c in enumerate(cases):
         # dynamic calibration with an (essentially) zero local scale makes gains 0/0: the result is rounding noise
         if c["calib"].startswith("dyn") and "states" in ires[i]:
-            if any(abs(x) < 1e-9 for st in ires[i]["states"][1:] for x in st["out"]):
+            if any((not (abs(x) >= 1e-9)) for st in ires[i]["states"][1:] for x in st["out"]):
                 bad.add(i)
                 degenerate += 1
     for i, c in enumerate(cases):
